@@ -123,3 +123,94 @@ func init() {
 		}
 	}
 }
+
+// parse.listloop (C19, C08): WGSL allows a trailing comma in every
+// comma-separated list (arguments, parameters, template lists, struct members,
+// attributes). A parser loop that goes round again after `match(TokenComma)`
+// accepts a trailing comma only if the closing token is tested again before the
+// next element is parsed: the loop condition (evaluated on every iteration)
+// contains a `check(<token>)` call, or the body starts with an `if` on such a
+// call that leaves the loop. A loop that tests the closer only before the first
+// element rejects `f(a, b,)` although it accepts `f(a, b)`.
+func (c *Ctx) runListLoops(r *Report, rule string) {
+	n := 0
+	for _, fn := range c.allFuncs() {
+		if fn.Pkg.Rel != "wgsl/internal/parser" {
+			continue
+		}
+		info := fn.Pkg.Info
+		isParserCall := func(call *ast.CallExpr, name string) bool {
+			f := calleeOf(info, call)
+			if f == nil || f.Name() != name {
+				return false
+			}
+			sig, ok := f.Type().(*types.Signature)
+			return ok && sig.Recv() != nil && namedName(sig.Recv().Type()) == "Parser"
+		}
+		matchesComma := func(nd ast.Node) bool {
+			hit := false
+			ast.Inspect(nd, func(m ast.Node) bool {
+				switch x := m.(type) {
+				case *ast.ForStmt, *ast.RangeStmt, *ast.FuncLit:
+					if m != nd {
+						return false // an inner loop is judged on its own
+					}
+				case *ast.CallExpr:
+					if isParserCall(x, "match") && len(x.Args) == 1 && irConstName(info, x.Args[0]) == "TokenComma" {
+						hit = true
+					}
+				}
+				return !hit
+			})
+			return hit
+		}
+		hasCheck := func(nd ast.Node) bool {
+			hit := false
+			ast.Inspect(nd, func(m ast.Node) bool {
+				if call, ok := m.(*ast.CallExpr); ok && (isParserCall(call, "check") || isParserCall(call, "checkAny")) {
+					hit = true
+				}
+				return !hit
+			})
+			return hit
+		}
+		ord := 0
+		ast.Inspect(fn.Decl.Body, func(m ast.Node) bool {
+			fs, ok := m.(*ast.ForStmt)
+			if !ok {
+				return true
+			}
+			commaInBody := matchesComma(fs.Body)
+			commaInPost := fs.Post != nil && matchesComma(fs.Post)
+			if !commaInBody && !commaInPost {
+				return true
+			}
+			n++
+			ord++
+			cons := fn.id() + ":listloop#" + itoa(ord)
+			ok2 := fs.Cond != nil && hasCheck(fs.Cond)
+			if !ok2 && len(fs.Body.List) > 0 {
+				if first, isIf := fs.Body.List[0].(*ast.IfStmt); isIf && hasCheck(first.Cond) {
+					ok2 = true
+				}
+			}
+			if ok2 {
+				r.ok(rule, cons, c.pos(fs.Pos()), "")
+			} else {
+				r.viol(rule, cons, c.pos(fs.Pos()), fn.id()+" parses a comma-separated list but does not test the closing token again after a comma (neither in the loop condition nor at the top of the body): a trailing comma before the closer is rejected")
+			}
+			return true
+		})
+	}
+	r.inst("parser.listloops", n)
+}
+
+func init() {
+	dumpers["listloops"] = func(c *Ctx, parts []string) {
+		r := newReport("dump")
+		c.runListLoops(r, "parse.listloop")
+		for _, o := range r.Obs {
+			println(o.Verdict, o.Construct, o.Pos)
+		}
+	}
+}
